@@ -95,7 +95,7 @@ def make(seed, quick):
             pairs.append((plain, original, txt))          # the shipped encoding itself
         nenc = (2 if big else 4) if quick else (12 if big else 30)
         for e in range(nenc):
-            mode = ['greedy', 'random', 'overlap'][e % 3]
+            mode = ['greedy', 'random', 'overlap', 'barely'][(e + bi) % 4]      # barely = only 1..8 bytes shorter than the plaintext
             combo = combos[e % len(combos)]
             name = 'v%03d-%s-%s-%d.ttf' % (bi, mode, '+'.join(combo), e)
             vjobs.append((plain, tmp, name, combo, mode, rng.randrange(1 << 30), None))
